@@ -44,6 +44,13 @@ POLICIES = {
     "ec-pvp2": {"default": {"entity_categories": ["at_egov_pvp2"]}},
     "no-fail-on-missing": {"default": {"attribute_restrictions": None, "fail_on_missing_requested": False}},
     "names-only-no-fail": {"default": {"attribute_restrictions": {"givenName": None}, "fail_on_missing_requested": False}},
+    # an entry of its own for each SP of the multi-SP scenarios: privileged and restricted providers side by side on one Server
+    "per-sp-mixed": {"default": {"attribute_restrictions": {"givenName": None}},
+                     "https://sp-a.example.org/md": {"attribute_restrictions": None, "fail_on_missing_requested": False},
+                     "https://sp-b.example.org/md": {"attribute_restrictions": {"mail": None}},
+                     "https://sp-c.example.org/md": {"attribute_restrictions": {"givenName": None, "sn": None, "mail": [r".*@example\.org$"]}, "fail_on_missing_requested": False},
+                     "https://sp-d.example.org/md": {"attribute_restrictions": {"eduPersonAffiliation": ["^member$"], "givenName": None}},
+                     "https://sp-e.example.org/md": {"attribute_restrictions": {"sn": None}, "fail_on_missing_requested": False}},
 }
 # (name, required?, values)
 DECLS = {
@@ -125,6 +132,11 @@ def gen_cases(tier, seed):
         for k in range(3 if tier == "quick" else 20):
             cases.append({"id": "sequence|%s|%d" % (pol, k), "sig": ["sequence", pol, k], "kind": "sequence", "policy": pol, "k": k,
                           "len": 16 if tier == "quick" else 60})
+    # the same Server answering several SPs from several threads at once, with yields injected inside the library
+    for pol in ("per-sp-mixed", "ec-swamid", "regex"):
+        for k in range(4 if tier == "quick" else 30):
+            cases.append({"id": "threads|%s|%d" % (pol, k), "sig": ["threads", pol, k], "kind": "sequence", "threads": 3, "policy": pol, "k": k,
+                          "len": 24 if tier == "quick" else 80})
     return cases
 
 
@@ -183,7 +195,7 @@ SEQ_SPS = [
     ("https://sp-d.example.org/md", [("givenName", True, []), ("eduPersonAffiliation", False, ["member"])], "none"),
     ("https://sp-e.example.org/md", [("sn", True, [])], "swamid-re+hei"),
 ]
-SEQ_POLICIES = ["ec-edugain", "ec-swamid", "ec-refeds+restr", "names-only", "regex", "release-all", "no-fail-on-missing", "regex-unanchored"]
+SEQ_POLICIES = ["ec-edugain", "ec-swamid", "ec-refeds+restr", "names-only", "regex", "release-all", "no-fail-on-missing", "regex-unanchored", "per-sp-mixed"]
 
 
 def setup_worker(ctx):
@@ -205,21 +217,46 @@ def run_sequence(case, ctx):
     rng = random.Random("%s/%s" % (ctx.seed, case["id"]))
     viol, counters = [], {"sequence_steps": 0, "released_values_checked": 0, "unmet_requirement_cases": 0}
     order = []
+    plan = []
     for step in range(case["len"]):
         k = rng.randrange(len(SEQ_SPS))
-        eid, decl, cat = SEQ_SPS[k]
-        order.append(eid.split("//")[1].split(".")[0])
-        ident = base_identity(rng, rng.choice(["full", "sparse", "full"]))
+        plan.append((step, SEQ_SPS[k], base_identity(rng, rng.choice(["full", "sparse", "full"])), "u%d" % rng.randrange(3)))
+    answers = {}
+
+    def answer(item):
+        step, (eid, decl, cat), ident, uid = item
         try:
-            resp = idp.create_authn_response(dict((a, list(v)) for a, v in ident.items()), "id-req-%d" % step, eid.replace("/md", "/acs"), eid,
-                                             userid="u%d" % rng.randrange(3), authn=fed.AUTHN, sign_response=False, sign_assertion=False)
+            return "%s" % idp.create_authn_response(dict((a, list(v)) for a, v in ident.items()), "id-req-%d" % step, eid.replace("/md", "/acs"), eid,
+                                                    userid=uid, authn=fed.AUTHN, sign_response=False, sign_assertion=False)
         except Exception:
+            return None
+    if case.get("threads"):
+        from vlib import interleave
+        n = case["threads"]
+
+        def worker(i):
+            def run():
+                for item in plan[i::n]:
+                    answers[item[0]] = answer(item)
+            return run
+        res, errs, stats = interleave.run_threads([worker(i) for i in range(n)], "%s/%s" % (ctx.seed, case["id"]), p=0.15)
+        counters["yields_injected"] = stats["yields_injected"]
+        counters["threads_hung"] = stats["threads_hung"]
+        for e in errs:
+            if e is not None:
+                counters["thread_errors"] = counters.get("thread_errors", 0) + 1
+    for step, (eid, decl, cat), ident, uid in plan:
+        order.append(eid.split("//")[1].split(".")[0])
+        resp = answers[step] if case.get("threads") else answer(plan[step])
+        if case.get("threads") and step not in answers:
+            continue
+        if resp is None:
             counters["idp_raised"] = counters.get("idp_raised", 0) + 1
             continue
         # judge against the reference for THIS SP alone
         sub = {"policy": case["policy"], "decl": "__seq__", "cat": cat, "call": "authn", "shape": "seq"}
         DECLS["__seq__"] = decl
-        r = judge(sub, ident, "%s" % resp, eid, prefix="[one Server answered %s] " % "->".join(order[-4:]))
+        r = judge(sub, ident, "%s" % resp, eid, prefix=("[one Server, %d threads at once] " % case["threads"]) if case.get("threads") else "[one Server answered %s] " % "->".join(order[-4:]))
         counters["sequence_steps"] += 1
         counters["released_values_checked"] += r["counters"].get("released_values_checked", 0)
         counters["unmet_requirement_cases"] += r["counters"].get("unmet_requirement_cases", 0)
@@ -233,7 +270,7 @@ def run_sequence(case, ctx):
     for v in viol:
         uniq.setdefault(v["key"], v)
     return {"outcome": "violations" if viol else "sequence-held", "nontrivial": counters["sequence_steps"] > 0, "violations": list(uniq.values()),
-            "counters": counters, "evals": max(1, counters["sequence_steps"]), "sigs": [["sequence", case["policy"], case["k"]]]}
+            "counters": counters, "evals": max(1, counters["sequence_steps"]), "sigs": [["threads" if case.get("threads") else "sequence", case["policy"], case["k"]]]}
 
 
 def _idp(ctx, pol, decl, cat):
